@@ -281,6 +281,36 @@ func genMalformedInput(r *kern.Rng, maxLen int) scen.InputSpec {
 	return in
 }
 
+// genHeaderProbe: malformed dynamic headers of the two shapes that made the
+// header parser and the distance-table builder index past their tables (both
+// repaired; see known_findings.json): a repeat-previous run that starts in the
+// last literal/length positions of a header with few distance codes and
+// overshoots, and headers with many distance codes longer than 10 bits
+// damaged by a few bit flips in the header region.
+func genHeaderProbe(r *kern.Rng) scen.InputSpec {
+	var in scen.InputSpec
+	p := genSynthParams(r, 4000)
+	p.AimOut, p.AimOff = 0, 0
+	p.TypeWeights = [3]int{0, 0, 1}
+	p.MaxBlocks = r.Pick(1, 1, 2)
+	p.EmptyPct, p.SyncPct = 0, 0
+	if r.Bool() {
+		p.Fault, p.FaultBlock = ref.FaultRunPast, 0
+		p.FarPct, p.MatchPct = 0, r.Pick(0, 0, 0, 5, 20) // few distance codes, often no length codes either
+		p.OutLen = r.Pick(20, 300, 3000)
+		p.TailGarbage = r.Pick(0, 600)
+		in.Parts = []scen.StreamSpec{{Enc: "synth", Synth: p, SynthSeed: r.Uint64()}}
+		return in
+	}
+	p.Shape, p.FarPct, p.MatchPct = 2, 100, r.Pick(80, 95)
+	p.OutLen = r.Pick(20000, 40000, 60000)
+	in.Parts = []scen.StreamSpec{{Enc: "synth", Synth: p, SynthSeed: r.Uint64()}}
+	for i := 1 + r.Intn(3); i > 0; i-- {
+		in.Mut = append(in.Mut, scen.Mutation{K: "flip", Pos: 3 + r.Intn(900)})
+	}
+	return in
+}
+
 func genPrior(r *kern.Rng, pkg string) scen.Prior {
 	p := scen.Prior{Take: -1, Close: r.Pct(35)}
 	p.In.Parts = []scen.StreamSpec{genStream(r, pkg, 120000, 0)}
@@ -308,6 +338,9 @@ func (c03) Gen(r *kern.Rng, tier string, idx int) *Trace {
 		for i := 1 + r.Intn(2); i > 0; i-- {
 			sc.Prior = append(sc.Prior, genPrior(r, "flate"))
 		}
+	}
+	if r.Pct(20) {
+		sc.In = genHeaderProbe(r)
 	}
 	tr := &Trace{Property: "C03", Family: "R-malformed", R: sc}
 	// truncation sweep: every byte of a small valid stream
@@ -693,6 +726,21 @@ func (c05) Gen(r *kern.Rng, tier string, idx int) *Trace {
 		// the Reader goes on to another source afterwards; the first source must stay as it was left
 		sc.Then = &scen.InputSpec{Parts: []scen.StreamSpec{genStream(r, pkg, 5000, 0)}}
 	}
+	if r.Pct(8) {
+		// the stream ends in a tiny block of a kind no Go writer emits last (a stored block of 1..5 bytes, a fixed
+		// block of a few symbols): whole bytes may still sit in the decoder's bit buffer when it sees the end
+		p := genSynthParams(r, 300)
+		p.AimOut, p.AimOff = 0, 0
+		p.OutLen = r.Pick(1, 1, 2, 2, 3, 5, 40, 300)
+		p.MaxBlocks = r.Pick(1, 1, 2, 3)
+		p.TypeWeights = [][3]int{{1, 0, 0}, {1, 0, 0}, {0, 1, 0}, {2, 1, 1}}[r.Intn(4)]
+		p.EmptyPct, p.SyncPct = 0, 0
+		sp := scen.StreamSpec{Enc: "synth", Synth: p, SynthSeed: r.Uint64()}
+		if pkg != "flate" {
+			sp.Wrap = pkg
+		}
+		sc.In.Parts[len(sc.In.Parts)-1] = sp
+	}
 	return &Trace{Property: "C05", Family: "R-suffix", R: sc}
 }
 
@@ -793,8 +841,51 @@ func init() { register(c13{}) }
 func (c13) ID() string           { return "C13" }
 func (c13) Runs(tier string) int { return tierLen(tier, 5000, 40000) }
 
+// genTablesHistory: earlier uses that leave the decoder's code tables in each
+// kind of state (fixed tables loaded, dynamic tables built, a dynamic header
+// rejected half-way by each kind of header fault), then a small valid stream
+// that starts with a chosen block type.
+func genTablesHistory(r *kern.Rng) *scen.RScen {
+	sc := &scen.RScen{Pkg: "flate", MaxOut: 32 << 20}
+	mk := func(tw [3]int, fault string) *ref.SynthParams {
+		p := genSynthParams(r, 3000)
+		p.AimOut, p.AimOff = 0, 0
+		p.TypeWeights = tw
+		p.MaxBlocks = r.Pick(1, 2, 3)
+		p.MatchPct = r.Pick(20, 50, 80)
+		p.EmptyPct, p.SyncPct = 0, r.Pick(0, 0, 30)
+		p.Fault = fault
+		if fault != "" {
+			p.FaultBlock = r.Intn(p.MaxBlocks)
+			p.TailGarbage = r.Pick(0, 600)
+		}
+		return p
+	}
+	kinds := [][3]int{{0, 1, 0}, {0, 0, 1}, {0, 1, 1}, {1, 1, 1}}
+	prior := func(p *ref.SynthParams) scen.Prior {
+		return scen.Prior{Take: -1, Close: r.Pct(30), In: scen.InputSpec{Parts: []scen.StreamSpec{{Enc: "synth", Synth: p, SynthSeed: r.Uint64()}}}}
+	}
+	if r.Pct(70) {
+		sc.Prior = append(sc.Prior, prior(mk(kinds[r.Intn(len(kinds))], "")))
+	}
+	hdrFaults := []string{ref.FaultOversub, ref.FaultOversubDist, ref.FaultOversubCL, ref.FaultRunPast, ref.FaultRepeatFirst, ref.FaultNoEOB, ref.FaultUnassigned, ref.FaultNoDistButUsed, ref.FaultBadLenSym, ref.FaultBadDistSym, ref.FaultStoredLen, ref.FaultReservedType}
+	for i := r.Pick(1, 1, 2); i > 0; i-- {
+		sc.Prior = append(sc.Prior, prior(mk(kinds[r.Intn(len(kinds))], hdrFaults[r.Intn(len(hdrFaults))])))
+	}
+	fin := mk(kinds[r.Intn(3)], "")
+	fin.OutLen = r.Pick(10, 40, 300, 3000)
+	sc.In.Parts = []scen.StreamSpec{{Enc: "synth", Synth: fin, SynthSeed: r.Uint64()}}
+	sc.Src = genSrc(r, false)
+	sc.Del = genDelivery(r)
+	sc.Reads = genReads(r)
+	return sc
+}
+
 func (c13) Gen(r *kern.Rng, tier string, idx int) *Trace {
 	pkg := []string{"flate", "flate", "flate", "gzip", "zlib"}[r.Intn(5)]
+	if pkg == "flate" && r.Pct(20) {
+		return &Trace{Property: "C13", Family: "R-reset(code-table states)", R: genTablesHistory(r)}
+	}
 	sc := &scen.RScen{Pkg: pkg, MaxOut: 32 << 20}
 	for i := 1 + r.Intn(3); i > 0; i-- {
 		p := genPrior(r, pkg)
